@@ -258,7 +258,11 @@ class QuadricTensor(ProjectiveTensor, ABC):
     @property
     def dual(self) -> QuadricTensor:
         """The dual quadric."""
-        return type(self)(inv(self.array), is_dual=not self.is_dual, copy=False)
+        cls = type(self)
+        if isinstance(self, Quadric) and cls not in (Quadric, Conic):
+            # the constructors of the special quadrics (circles, spheres, ...) take a center and radii, not a matrix
+            cls = Conic if isinstance(self, Conic) else Quadric
+        return cls(inv(self.array), is_dual=not self.is_dual, copy=False)
 
 
 class Quadric(QuadricTensor, BoundTensor):
